@@ -107,6 +107,7 @@ type zzAbs struct {
 	// CONNECT
 	protoName   []byte
 	protoVer    byte
+	protoSet    bool // set through SetProtocolName / SetProtocolVersion
 	connFlags   byte // as on the wire (derived for generated packets)
 	keepAlive   uint16
 	clientID    []byte
@@ -183,6 +184,7 @@ type zzShape struct {
 	fld   int // index (1-based) of one string field that gets length flen; 0 none
 	flen  int
 	big   int // payload / will payload length override (0 = slen)
+	proto int // CONNECT: 0 default protocol name and version; k>0: a protocol name of k-1 symbolic bytes and a symbolic version
 }
 
 func zzShapeOf(a []int) zzShape {
@@ -192,7 +194,7 @@ func zzShapeOf(a []int) zzShape {
 		}
 		return 0
 	}
-	return zzShape{typ: g(0), mask: g(1), order: g(2), slen: g(3), nUser: g(4), nList: g(5), will: g(6), cred: g(7), qos: g(8), form: g(9), nz: g(10), fld: g(11), flen: g(12), big: g(13)}
+	return zzShape{typ: g(0), mask: g(1), order: g(2), slen: g(3), nUser: g(4), nList: g(5), will: g(6), cred: g(7), qos: g(8), form: g(9), nz: g(10), fld: g(11), flen: g(12), big: g(13), proto: g(14)}
 }
 
 type zzGenState struct {
@@ -390,6 +392,11 @@ func zzGen2(sh zzShape, pre string) *zzAbs {
 	case 1:
 		a.protoName = []byte("MQTT")
 		a.protoVer = 5
+		if sh.proto > 0 {
+			a.protoName = g.rawContent(g.pre+"protoName", sh.proto-1, true)
+			a.protoVer = g.dU8(g.pre + "protoVer")
+			a.protoSet = true
+		}
 		a.keepAlive = g.dU16(g.pre + "keepAlive")
 		clean := g.dBool(g.pre + "cleanStart")
 		a.props = g.props("", 1, sh.mask, sh.nUser, 0)
@@ -415,14 +422,15 @@ func zzGen2(sh zzShape, pre string) *zzAbs {
 		}
 		if sh.cred&1 == 1 {
 			a.username = g.content("username", sh.slen, true)
-			a.hasUser = len(a.username) > 0
+			// (wire frames, form 1: the flag is set although the value is empty)
+			a.hasUser = len(a.username) > 0 || sh.form == 1
 			if a.hasUser {
 				a.connFlags |= 0x80
 			}
 		}
 		if sh.cred&2 == 2 {
 			a.password = g.content("password", sh.slen, false)
-			a.hasPass = len(a.password) > 0
+			a.hasPass = len(a.password) > 0 || sh.form == 1
 			if a.hasPass {
 				a.connFlags |= 0x40
 			}
